@@ -42,6 +42,7 @@ type cmap interface {
 	set(k int, v string)
 	del(k int)
 	has(k int) bool
+	get(k int) (string, bool)
 	length() int
 	keys() []string
 	marshal() ([]byte, error)
@@ -54,6 +55,10 @@ func (c cRules) name(k int) string  { return fmt.Sprintf("k%d", k) }
 func (c cRules) set(k int, v string) { c.m.Set(c.name(k), schema.RuleASTNode{Value: v}) }
 func (c cRules) del(k int)           { c.m.Delete(c.name(k)) }
 func (c cRules) has(k int) bool      { return c.m.Has(c.name(k)) }
+func (c cRules) get(k int) (string, bool) {
+	v, ok := c.m.Get(c.name(k))
+	return v.Value, ok
+}
 func (c cRules) length() int         { return c.m.Len() }
 func (c cRules) keys() []string {
 	var out []string
@@ -68,6 +73,10 @@ func (c cAST) name(k int) string   { return fmt.Sprintf("k%d", k) }
 func (c cAST) set(k int, v string) { c.m.Set(c.name(k), schema.ASTNode{Value: v}) }
 func (c cAST) del(k int)           { c.m.Delete(c.name(k)) }
 func (c cAST) has(k int) bool      { return c.m.Has(c.name(k)) }
+func (c cAST) get(k int) (string, bool) {
+	v, ok := c.m.Get(c.name(k))
+	return v.Value, ok
+}
 func (c cAST) length() int         { return c.m.Len() }
 func (c cAST) keys() []string {
 	var out []string
@@ -84,6 +93,13 @@ func (c cCons) set(k int, v string) {
 }
 func (c cCons) del(k int)      { c.m.Delete(consKinds[k%len(consKinds)]) }
 func (c cCons) has(k int) bool { return c.m.Has(consKinds[k%len(consKinds)]) }
+func (c cCons) get(k int) (string, bool) {
+	v, ok := c.m.Get(consKinds[k%len(consKinds)])
+	if v == nil {
+		return "", ok
+	}
+	return "set", ok
+}
 func (c cCons) length() int    { return c.m.Len() }
 func (c cCons) keys() []string {
 	var out []string
@@ -128,6 +144,13 @@ func containerOracle(c CCase) *ev.Verdict {
 						m.del(op.Key)
 					case "has":
 						m.has(op.Key)
+					case "get":
+						// one answer: a value somebody set together with "present", or nothing with "absent"
+						if v, ok := m.get(op.Key); ok != (v != "") {
+							mu.Lock()
+							during = append(during, fmt.Sprintf("goroutine %d: Get(%s) = %q, %v", g, m.name(op.Key), v, ok))
+							mu.Unlock()
+						}
 					case "len":
 						m.length()
 					case "each":
@@ -152,7 +175,7 @@ func containerOracle(c CCase) *ev.Verdict {
 		close(start)
 		wg.Wait()
 		if len(during) > 0 {
-			return ev.V("container:"+c.Kind+":duplicate-key-seen-by-reader", "a key twice in one iteration while other goroutines write: %s", during[0])
+			return ev.V("container:"+c.Kind+":reader-saw-no-state", "a reader saw what no state of the map shows (a key twice in one iteration, a value without its key or a key without its value) while other goroutines write: %s", during[0])
 		}
 		set, deleted := map[string]bool{}, map[string]bool{}
 		for _, prog := range c.Progs {
@@ -250,7 +273,7 @@ func genContainerCase(t *rapid.T) CCase {
 		n := rapid.IntRange(0, 6).Draw(t, "more")
 		for j := 0; j < n; j++ {
 			prog = append(prog, COp{
-				Op:  rapid.SampledFrom([]string{"set", "set", "delete", "has", "len", "each", "json"}).Draw(t, "op"),
+				Op:  rapid.SampledFrom([]string{"set", "set", "delete", "delete", "has", "get", "get", "get", "len", "each", "json"}).Draw(t, "op"),
 				Key: rapid.SampledFrom(hot).Draw(t, "key"),
 			})
 		}
